@@ -280,7 +280,7 @@ def finish(mod, total: Result, tier, seed, wall, write_evidence=True):
         for r in total.inconclusive[:5]:
             lines.append("INCONCLUSIVE property=%s reason=%s" % (prop, r[:800].replace("\n", " | ")))
 
-    if write_evidence:
+    if write_evidence and not os.environ.get("VERIF_NO_EVIDENCE"):
         cov = {
             "evaluations": int(total.evaluations),
             "distinct_nontrivial": len(total.nontrivial),
